@@ -95,4 +95,33 @@ theorem lastVal_eq_none_iff {k : String} {l : List (String × Val)} : lastVal k 
       · simp [hk]
       · simp only [hk, if_false, not_false_eq_true, true_and, true_iff]; exact this
 
+/-! ### the key of a `KEY=VALUE` string -/
+
+theorem takeWhile_append_stop (a b : List Char) (h : ∀ c ∈ a, c ≠ '=') : (a ++ '=' :: b).takeWhile (· ≠ '=') = a := by
+  induction a with
+  | nil => simp
+  | cons x r ih =>
+    have hx : x ≠ '=' := h x (by simp)
+    simp only [List.cons_append, List.takeWhile_cons, ne_eq, hx, not_false_eq_true, decide_true, if_true]
+    rw [ih (fun c hc => h c (by simp [hc]))]
+theorem kvKey_entry (k v : String) (h : ∀ c ∈ k.toList, c ≠ '=') : kvKey (k ++ "=" ++ v) = k := by
+  unfold kvKey
+  have : (k ++ "=" ++ v).toList = k.toList ++ '=' :: v.toList := by
+    simp [String.toList_append]
+  rw [this, takeWhile_append_stop _ _ h]
+  simp
+theorem kvKey_bare (k : String) (h : ∀ c ∈ k.toList, c ≠ '=') : kvKey k = k := by
+  unfold kvKey
+  have : ∀ l : List Char, (∀ c ∈ l, c ≠ '=') → l.takeWhile (· ≠ '=') = l := by
+    intro l
+    induction l with
+    | nil => intro _; rfl
+    | cons x r ih =>
+      intro hl
+      have hx : x ≠ '=' := hl x (by simp)
+      simp only [List.takeWhile_cons, ne_eq, hx, not_false_eq_true, decide_true, if_true]
+      rw [ih (fun c hc => hl c (by simp [hc]))]
+  rw [this _ h]
+  simp
+
 end CV.Unicity
